@@ -178,11 +178,16 @@ fn pollute(c: &SimCfg, r: &mut Sm) {
     }
     {
         let mut e: MarketEnv<2, 10> = MarketEnv::new(r.below(1000), [c.ticks[0], c.ticks[1]], c.step_size, true);
+        let mut first_asset = None;
         for _ in 0..r.range(1, 60) {
             let a = r.below(2) as usize;
-            let _ = e.place_order(a, if r.chance(0.5) { Side::Bid } else { Side::Ask }, r.range(1, 50) as u32, r.below(100) as u32, Some(grid(r, c.ticks[a])));
+            if e.place_order(a, if r.chance(0.5) { Side::Bid } else { Side::Ask }, r.range(1, 50) as u32, r.below(100) as u32, Some(grid(r, c.ticks[a]))).is_ok() && first_asset.is_none() {
+                first_asset = Some(a);
+            }
         }
-        e.cancel_order((1, 0));
+        if let Some(a) = first_asset {
+            e.cancel_order((a, 0)); // an existing order (valid input)
+        }
     }
     {
         let mut e: MarketEnv<3, 5> = MarketEnv::new(0, [c.ticks[0], c.ticks[1], c.ticks[2]], c.step_size, true);
